@@ -29,6 +29,7 @@ type ClusterOpts struct {
 	Writers []int // peer indices with write access (nil: all); -1 means "*"
 	OpenOn  []int // peers that open the db (nil: all)
 	Replicate *bool
+	DefaultAC bool // create without access-controller options (creator only)
 }
 
 // WriteList turns peer indices into identity ids.
@@ -73,8 +74,11 @@ func NewCluster(ctx context.Context, o ClusterOpts) (*Cluster, error) {
 	if name == "" {
 		name = "db"
 	}
-	ac := &accesscontroller.CreateAccessControllerOptions{Access: map[string][]string{"write": w.WriteList(writers)}}
-	s0, err := w.Peers[0].DB.Create(ctx, name, o.Type, &orbitdb.CreateDBOptions{AccessController: ac, Replicate: o.Replicate})
+	copts := &orbitdb.CreateDBOptions{Replicate: o.Replicate}
+	if !o.DefaultAC {
+		copts.AccessController = &accesscontroller.CreateAccessControllerOptions{Access: map[string][]string{"write": w.WriteList(writers)}}
+	}
+	s0, err := w.Peers[0].DB.Create(ctx, name, o.Type, copts)
 	if err != nil {
 		return nil, fmt.Errorf("create: %w", err)
 	}
